@@ -32,6 +32,7 @@ EXPLANATION = (
     'R9: the decision table of array.get over the ordering worlds of (index, -len) and (index, len) returns held[index] exactly for -len <= index < len, else the fallback / InvalidArguments; str.format placeholders likewise for index < len. R10: in every interpreter function/method with an optional positional argument typed `object` (get_variable, dict.get, array.get, summary, subproject.get_variable, meson.get_*_property) the argument is never tested by truthiness, also in same-class helpers it is handed to. '
     'R11: get_variable() and subproject.get_variable() return <interpreter>.variables[name] on the found row (not an accessor that also resolves builtins or raises another exception) and handle exactly KeyError on the miss row. '
     'R12: in the evaluator a raising `key in table` guard and the following store into the same table use the same key expression (duplicate dictionary keys / keyword arguments are errors). R13: the regex of str.underscorify matches exactly the single characters outside [a-zA-Z0-9]. '
+    'R14: the scan loop of array.contains() (also its recursive helper) returns early only with a value known to be true on that path. R7 also: dict.values() takes its order from sorted(keys). '
     'Does NOT decide: the value a particular program yields, arithmetic on concrete numbers, .format()/f-string rendering, semantics delegated to Python str/list methods, '
     'subdir()/subproject() scoping, and that `int` operand guards also admit Python bools (documented legacy for integers).')
 ASSUMPTIONS = [
@@ -57,5 +58,6 @@ RULES = [
     Rule('C01.R10', 'presence of an optional object-typed argument is decided by identity with None, never by truthiness', c01_args.r10),
     Rule('C01.R12', 'a duplicate-key guard tests the key under which the entry is stored', c01_args.r12),
     Rule('C01.R13', 'str.underscorify replaces exactly the characters outside [a-zA-Z0-9]', c01_args.r13),
+    Rule('C01.R14', 'array.contains() scans every element: the search loop is left early only on success', c01_args.r14),
     Rule('C01.R11', 'get_variable(name, fallback) reads exactly the variable table; a miss is the KeyError that selects the fallback', c01_args.r11),
 ]
